@@ -20,7 +20,7 @@
      C08_lease_survives_peer_close   the peer's half close ends no lease (sweep condition from Gen/SwitchC08.v).
    recycle() (Close) gives the parked slices back as well (since a234a74; mirrored by the model). *)
 From Coq Require Import List ZArith Lia Bool Arith.
-From Shm Require Import Gen.Consts Gen.SwitchC06 Gen.SwitchC08 Model.LinkedBuffer Proofs.LinkedBufferProofs Proofs.LinkedBufferStore
+From Shm Require Import Gen.Consts Gen.SwitchC08 Model.LinkedBuffer Proofs.LinkedBufferProofs Proofs.LinkedBufferStore
   Proofs.LinkedBufferWriter Proofs.LinkedBufferXfer Proofs.LinkedBufferPipe Proofs.LinkedBufferDuplex.
 Import ListNotations.
 Close Scope Z_scope.
@@ -43,9 +43,18 @@ Print Assumptions C08_duplex.
 (* the peer's close (half close) ends no lease: the sweep of the callback goroutine (pendingData.clear +
    recvBuf.recycle) runs only for a locally closed stream (Gen/SwitchC08.v, translated from
    startCallbackGoroutine); only the holder's own release / Close ends a lease *)
-Theorem C08_lease_survives_peer_close : forall s, step s RPeerClose = Ok (RUnit, s).
-Proof. exact peer_close_is_invisible. Qed.
+Theorem C08_lease_survives_peer_close : forall sticky s,
+  step_gen sticky sw_sweep_needs_closed s RPeerClose = Ok (RUnit, s).
+Proof. intros sticky s. reflexivity. Qed.
 Print Assumptions C08_lease_survives_peer_close.
+
+(* the model is parametrized by the decisions read off the source; C08, C08_duplex ... are about the variant
+   with the sweep restricted to locally closed streams, which is the one the generated switch selects (the
+   other three decisions are C06's / C07's subject and stay variables here) *)
+Theorem C08_model_is_the_source_variant : forall a b sticky,
+  dstep_gen a b sticky sw_sweep_needs_closed = dstep_gen a b sticky true.
+Proof. intros a b sticky. reflexivity. Qed.
+Print Assumptions C08_model_is_the_source_variant.
 
 Theorem C08_sweep_on_half_close_frees_a_leased_slot :
   let bs := map Z.of_nat (seq 0 40) in
